@@ -1,13 +1,47 @@
 (* Properties_C20.v — property C20 (local table update messages round-trip the tables they carry) as theorems about the
    mirror LocalTab.v of bufr_store_tables / bufr_extract_tables.  Only statements, `exact`, and Print Assumptions. *)
 From Coq Require Import List ZArith NArith Arith Lia Bool.
-From V Require Import Walk BitIO Fm94 LocalTab LocalTabFmt LocalTabExtract LocalTabBytes LocalTabProof.
+From V Require Import Walk BitIO Fm94 LocalTab LocalTabFmt LocalTabExtract LocalTabBytes LocalTabProof LocalTabRound.
 Import ListNotations.
 Local Open Scope Z_scope.
 
-(* the property at full strength: store -> Section 4 octets -> reference decoder (Fm94.dec_plain with the master tables) ->
-   extract gives back the tables, whatever the two never-assigned fields eb.encoding.af_nbits / ref_nbits (junk) hold *)
-Definition C20_full_statement : Prop := forall junk ed T, wf_t T -> roundtrip junk ed T = Some T.
+(* the property at full strength, for the code after 8fe08d3 (eb.encoding.af_nbits / ref_nbits initialised to 0): the values
+   bufr_store_tables writes -> their Section 4 octets -> the reference decoder Fm94.dec_plain with the hand-written Section 3
+   and the master tables -> the switch of bufr_extract_tables gives back the tables *)
+Definition C20_full_statement : Prop :=
+  forall ed T, wf_t T -> Forall (fun e => lb_aux e = (0, 0)) (lt_B T) -> roundtrip (0, 0) ed T = Some T.
+
+Theorem C20_store_decode_extract_id :
+  forall ed T, wf_t T -> Forall (fun e => lb_aux e = (0, 0)) (lt_B T) -> roundtrip (0, 0) ed T = Some T.
+Proof. exact roundtrip_id. Qed.
+Print Assumptions C20_store_decode_extract_id.
+
+(* the same composition for the code before the fix: everything comes back except the two never-assigned fields, which are
+   whatever the stack held (junk) *)
+Theorem C20_store_decode_extract_any_junk : forall junk ed T, wf_t T ->
+  roundtrip junk ed T = Some (mkLT (lt_cat T) (lt_cdesc T) (map (set_aux junk) (lt_B T)) (lt_D T)).
+Proof. exact roundtrip_store. Qed.
+Print Assumptions C20_store_decode_extract_any_junk.
+
+(* ... and that difference is observable: a scale-0, reference>0 NUMERIC element gets another value type (pre-fix defect) *)
+Theorem C20_extract_valtype_refuted :
+  exists junk ed T T', wf_t T /\ Forall (fun e => lb_aux e = (0, 0)) (lt_B T) /\
+    roundtrip junk ed T = Some T' /\ map entry_valtype (lt_B T') <> map entry_valtype (lt_B T).
+Proof. exact extract_valtype_refuted. Qed.
+Print Assumptions C20_extract_valtype_refuted.
+
+(* store_is_legal: the hand-written data section is exactly what the FM 94 reference encoder produces for the hand-written
+   Section 3 and the values written (any fuel >= need T, any edition) *)
+Theorem C20_store_is_legal : forall ed T fuel, wf_t T -> (need T <= fuel)%nat ->
+  enc_plain T0 ed fuel (store_s3 T) [map dat (store_fields T)] = Ok (bytes_to_bits (fields_bytes (store_fields T))).
+Proof. exact store_is_legal. Qed.
+Print Assumptions C20_store_is_legal.
+
+(* the reference decoder reads the stored octets back as exactly the (descriptor, value) list that was written *)
+Theorem C20_decode_elements_store : forall ed T, wf_t T ->
+  decode_elements ed (store_s3 T) (fields_bytes (store_fields T)) = Some (store_fields T).
+Proof. exact decode_store. Qed.
+Print Assumptions C20_decode_elements_store.
 
 (* "%<w>d" / "%.<w>d" then atoi is the identity for numbers that fit the field *)
 Theorem C20_print_parse_width : forall w z, 0 <= z < 10 ^ Z.of_nat (S w) -> atoi (put_fmt (S w) (fmt_width (S w) z)) = z.
